@@ -30,7 +30,7 @@ def reference(tokens):
 
 bad = None
 count = 0
-names = ['aa', 'bb', 'cc', 'dd', 'ee']
+names = ['aa', 'bb', 'cc', 'dd', 'ee', 'ff', 'gg']
 for n in range(1, %d + 1):
     for ops in itertools.product(OPS, repeat=n):
         tokens = [names[0]]
